@@ -22,6 +22,7 @@ class Module:
         self.is_pkg = os.path.basename(path) == "__init__.py"
         self.defs = {}      # name -> ast node (FunctionDef / ClassDef / Assign value / import)
         self.classes = {}
+        self.mutated = set()   # module-level names changed by later module-level statements (their defining expression is not their value)
         for node in self.tree.body:
             self._index(node)
 
@@ -33,7 +34,13 @@ class Module:
         elif isinstance(node, ast.Assign):
             for t in node.targets:
                 if isinstance(t, ast.Name):
+                    if t.id in self.defs and self.defs[t.id][0] == "assign":
+                        self.mutated.add(t.id)          # re-bound: which binding is live depends on control flow
                     self.defs[t.id] = ("assign", node.value)
+                elif isinstance(t, ast.Subscript) and isinstance(t.value, ast.Name):
+                    self.mutated.add(t.value.id)        # TABLE[k] = v at module level
+        elif isinstance(node, ast.AugAssign) and isinstance(node.target, ast.Name):
+            self.mutated.add(node.target.id)
         elif isinstance(node, ast.AnnAssign) and isinstance(node.target, ast.Name) and node.value is not None:
             self.defs[node.target.id] = ("assign", node.value)
         elif isinstance(node, ast.Import):
@@ -44,6 +51,9 @@ class Module:
             for a in node.names:
                 nm = a.asname or a.name
                 self.defs[nm] = ("importfrom", (node.level, node.module, a.name))
+        elif isinstance(node, ast.Expr) and isinstance(node.value, ast.Call) and isinstance(node.value.func, ast.Attribute) \
+                and isinstance(node.value.func.value, ast.Name):
+            self.mutated.add(node.value.func.value.id)      # e.g. TABLE.update(...) at module level
         elif isinstance(node, (ast.If, ast.Try)):
             for sub in ast.iter_child_nodes(node):
                 if isinstance(sub, ast.stmt):
